@@ -230,10 +230,56 @@ def parse_spec(path):
 TAG_RE = re.compile(r'^\s*/\*((?:\[[^\]]+\])+)\*/')
 
 
+def signatures_of(ctext):
+    """function -> [(ctype, parameter name), ...] of the extracted text"""
+    sigs = {}
+    for m in re.finditer(r'^/\*@FUNC (\w+)\*/\n[^\n]*?\b\1\((.*)\)\s*$', ctext, re.M):
+        params = []
+        inner = m.group(2).strip()
+        if inner and inner != 'void':
+            for part in inner.split(','):
+                pm = re.match(r'^\s*(.*?)(\w+)\s*$', part)
+                if pm:
+                    params.append((re.sub(r'\s+', ' ', pm.group(1)).strip(), pm.group(2)))
+        sigs[m.group(1)] = params
+    return sigs
+
+
+def parameter_renames(ctext, comp):
+    """The contracts name parameters as they were spelled when the contracts were written (contracts/signatures.json).
+    A function whose parameters were merely renamed (same number, same C types, in order) keeps its contract: the old
+    names are mapped to the current ones.  Anything else is left alone (and ends as undecided if the names are gone)."""
+    import json
+    base_path = os.path.join(os.path.dirname(comp.path), 'signatures.json')
+    if not os.path.exists(base_path):
+        return {}
+    base = json.load(open(base_path)).get(comp.name, {})
+    cur = signatures_of(ctext)
+    ren = {}
+    for f, old in base.items():
+        new = cur.get(f)
+        if new is None or len(new) != len(old):
+            continue
+        if [t for t, _ in old] != [t for t, _ in new]:
+            continue
+        mp = {o: n for (_, o), (_, n) in zip(old, new) if o != n}
+        if mp:
+            ren[f] = mp
+    return ren
+
+
+def apply_renames(lines, mp):
+    if not mp:
+        return lines
+    rx = re.compile(r'\b(%s)\b' % '|'.join(re.escape(k) for k in mp))
+    return [rx.sub(lambda m: mp[m.group(1)], l) for l in lines]
+
+
 def splice(ctext, comp):
     """insert contracts at the /*@CONTRACT f*/ and /*@LOOP f n*/ markers.
     returns (text, tagmap) where tagmap maps output line number -> list of tags"""
     out = []
+    renames = parameter_renames(ctext, comp)
     tagmap = {}
     used_f, used_l = set(), set()
     proto_end_seen = False
@@ -243,7 +289,7 @@ def splice(ctext, comp):
             f = m.group(1)
             if f in comp.functions:
                 used_f.add(f)
-                for c in comp.functions[f]:
+                for c in apply_renames(comp.functions[f], renames.get(f)):
                     out.append(c)
                     t = TAG_RE.match(c)
                     if t:
@@ -254,7 +300,7 @@ def splice(ctext, comp):
             key = (m.group(1), int(m.group(2)))
             if key in comp.loops:
                 used_l.add(key)
-                for c in comp.loops[key]:
+                for c in apply_renames(comp.loops[key], renames.get(key[0])):
                     out.append(c)
             continue
         out.append(ln)
